@@ -50,6 +50,22 @@ CLAIMED = {
         "DESIGN.md 4 C07",
         "",
     ),
+    "C10": (
+        "complete enumeration of the gate table (reflected entry points x verbosity x flags x quiet x formatter x stream kind) against the stated gate predicate",
+        "Every public writer with a flags parameter found by reflection on IO/Output/SectionOutput (plus section clear/overwrite) is "
+        "called on fresh objects for every verbosity, flag word, quiet setting and formatter; the marker reaches the stream iff the "
+        "stated predicate holds and the stream is untouched otherwise.",
+        "DESIGN.md 4 C10",
+        "",
+    ),
+    "C11": (
+        "Hypothesis markup trees with per-character style model (ANSI vs plain vs tag-stripped differential), exhaustive style x supply-way enumeration against an independent SGR table, reflected line writers, Hypothesis indentation programs against an indent-stack model",
+        "Generated balanced markup is rendered by both formatters and through decorated/undecorated outputs and compared per character "
+        "with the intended text and style; all 41472 styles x 3 ways of supplying them; every line-writing method; nested indentation "
+        "scopes with exceptional exits compared with a model of the whole stream.",
+        "DESIGN.md 4 C11",
+        "",
+    ),
     "C12": (
         "bounded-exhaustive operation sequences + Hypothesis op lists against a list-based reference model of the dispatcher",
         "All 11^5 (quick) / 11^7 (thorough) register/dispatch sequences, each with and without queries after every step, plus "
